@@ -516,6 +516,14 @@ def frame_cases(cx, n_per_cfg, lens, with_cuts=True):
     carriers = ["bytes", "string", "buffer", "reader", "mreader"]
     for ci, c in enumerate(FRAME_CONFIGS):
         adm = [p for p in lens if frame_admitted(c, p)]
+        # payloads that make a frame of exactly the maximum, one less, one more (the delimiter encoder does not know the
+        # maximum: the decoder must refuse the longer one; for the others only admitted lengths are encoded)
+        if c["kind"] in ("lf", "varint", "delim") and c["max"] <= 70000:
+            over = {"lf": c.get("o", 0) + c.get("w", 0), "varint": 0, "delim": c.get("dl", 0)}[c["kind"]]
+            for d in (-1, 0, 1):
+                p = c["max"] - over + d
+                if p >= 0 and p not in adm and (frame_admitted(c, p) or c["kind"] == "delim"):
+                    adm.append(p)
         if c["kind"] == "fixed":
             adm = [c["n"]]
         # payloads that do not fit the length field: the encoder must refuse, not mis-encode
